@@ -31,7 +31,9 @@ type Step struct {
 	Parent      int    `json:"parent"` // index into names; -1 = none
 	Target      int    `json:"target"` // -1 = no target label
 	MountFail   bool   `json:"mount_fail,omitempty"`
-	CheckFail   int    `json:"check_fail,omitempty"` // bitmask over names: Check of their mountpoint fails during this step
+	CheckFail   int    `json:"check_fail,omitempty"`      // bitmask over names: Check of their mountpoint fails during this step
+	Overlap     bool   `json:"overlap_cleanup,omitempty"` // prepare/view: another caller's Cleanup arrives while the snapshot is being created
+	CheckSlow   int    `json:"check_slow,omitempty"`      // bitmask over names: Check of their mountpoint answers late (25 ms)
 	UnmountFail bool   `json:"unmount_fail,omitempty"`
 }
 
@@ -41,8 +43,8 @@ type Case struct {
 }
 
 // callers (containerd's unpacker, CRI) use transient keys ("extract-<n> <chainID>") for active snapshots and chain ids for
-// committed ones; the two never coincide.  Names 0-3 are used as keys, 4-7 as committed names / targets; parents may be any.
-var names = []string{"k0", "k1", "k2", "k3", "c0", "c1", "c2", "c3"}
+// committed ones; the two never coincide.  Names 0-3 are used as keys, 4-11 as committed names / targets (4-7 mostly, so that collisions stay frequent); parents may be any.
+var names = []string{"k0", "k1", "k2", "k3", "c0", "c1", "c2", "c3", "c4", "c5", "c6", "c7"}
 
 // gen keeps an approximate symbolic state (which names are probably committed / active) so that most calls are
 // plausible: parents that exist, commits of active keys, removals of existing snapshots.  It is only a generator bias;
@@ -62,22 +64,59 @@ func gen(t *rapid.T) Case {
 		sort.Ints(ks)
 		return rapid.SampledFrom(ks).Draw(t, label+"known")
 	}
+	cname := func(label string) int {
+		if rapid.IntRange(0, 3).Draw(t, label+"hi") == 0 {
+			return rapid.IntRange(8, 11).Draw(t, label)
+		}
+		return rapid.IntRange(4, 7).Draw(t, label)
+	}
+	if rapid.IntRange(0, 5).Draw(t, "deepchain") == 0 {
+		// an image with many layers: every layer of the chain is checked, the checks run in parallel and answer late
+		d := rapid.IntRange(5, 8).Draw(t, "depth")
+		for j := 0; j < d; j++ {
+			c.Steps = append(c.Steps, Step{Op: "prepare", Key: 0, Parent: 3 + j, Target: 4 + j})
+			committed[4+j] = true
+		}
+		c.Steps[0].Parent = -1
+		fail := rapid.IntRange(0, d-1).Draw(t, "failing")
+		slow := rapid.IntRange(0, 255).Draw(t, "slowmask") << 4
+		if rapid.Bool().Draw(t, "slowabove") {
+			slow = 0
+			for j := fail + 1; j < d; j++ {
+				slow |= 1 << uint(4+j)
+			}
+		}
+		top := Step{Op: rapid.SampledFrom([]string{"view", "prepare", "mounts"}).Draw(t, "topop"), Key: 1, Parent: 3 + d, Target: -1, CheckFail: 1 << uint(4+fail), CheckSlow: slow}
+		if top.Op == "mounts" {
+			c.Steps = append(c.Steps, Step{Op: "prepare", Key: 1, Parent: 3 + d, Target: -1})
+			active[1] = true
+		}
+		if rapid.IntRange(0, 3).Draw(t, "nofail") == 0 {
+			top.CheckFail = 0
+		}
+		c.Steps = append(c.Steps, top)
+		active[1] = true
+	}
 	n := rapid.IntRange(3, 30).Draw(t, "nsteps")
 	for i := 0; i < n; i++ {
 		s := Step{Op: rapid.SampledFrom([]string{"prepare", "prepare", "prepare", "prepare", "view", "commit", "mounts", "mounts", "remove", "remove", "cleanup", "update", "reopen"}).Draw(t, "op"), Parent: -1, Target: -1}
 		s.MountFail = rapid.IntRange(0, 5).Draw(t, "mountfail") == 0
 		if rapid.IntRange(0, 3).Draw(t, "checkfail") == 0 {
-			s.CheckFail = rapid.IntRange(1, 255).Draw(t, "checkmask")
+			s.CheckFail = rapid.IntRange(1, 4095).Draw(t, "checkmask")
+		}
+		if rapid.IntRange(0, 5).Draw(t, "checkslow") == 0 {
+			s.CheckSlow = rapid.IntRange(1, 4095).Draw(t, "slowmask")
 		}
 		s.UnmountFail = rapid.IntRange(0, 5).Draw(t, "unmountfail") == 0
 		switch s.Op {
 		case "prepare", "view":
+			s.Overlap = rapid.IntRange(0, 5).Draw(t, "overlap") == 0
 			s.Key = rapid.IntRange(0, 3).Draw(t, "key")
 			if rapid.IntRange(0, 3).Draw(t, "hasparent") > 0 {
-				s.Parent = pick(committed, 4, 7, "parent")
+				s.Parent = pick(committed, 4, 11, "parent")
 			}
 			if s.Op == "prepare" && rapid.IntRange(0, 3).Draw(t, "hastarget") > 0 {
-				s.Target = rapid.IntRange(4, 7).Draw(t, "target")
+				s.Target = cname("target")
 				if !s.MountFail && !active[s.Key] && (s.Parent < 0 || committed[s.Parent]) {
 					committed[s.Target] = true
 				} else if !active[s.Key] {
@@ -88,7 +127,7 @@ func gen(t *rapid.T) Case {
 			}
 		case "commit":
 			s.Key = pick(active, 0, 3, "ckey")
-			s.Target = rapid.IntRange(4, 7).Draw(t, "name")
+			s.Target = cname("name")
 			if active[s.Key] && !committed[s.Target] {
 				delete(active, s.Key)
 				committed[s.Target] = true
@@ -97,14 +136,14 @@ func gen(t *rapid.T) Case {
 			if rapid.Bool().Draw(t, "onactive") {
 				s.Key = pick(active, 0, 3, "mkey")
 			} else {
-				s.Key = pick(committed, 4, 7, "mname")
+				s.Key = pick(committed, 4, 11, "mname")
 			}
 		case "remove":
 			if rapid.IntRange(0, 2).Draw(t, "rmactive") == 0 {
 				s.Key = pick(active, 0, 3, "rkey")
 				delete(active, s.Key)
 			} else {
-				s.Key = pick(committed, 4, 7, "rname")
+				s.Key = pick(committed, 4, 11, "rname")
 				delete(committed, s.Key)
 			}
 		}
@@ -254,6 +293,15 @@ func run(c Case, ev *pbt.Ev) error {
 		}
 		return false
 	}
+	w.fs.Slow = func(op, mp string) time.Duration {
+		n := w.nameOfMP(mp)
+		for i, nm := range names {
+			if nm == n && w.script.CheckSlow&(1<<uint(i)) != 0 {
+				return 25 * time.Millisecond
+			}
+		}
+		return 0
+	}
 	if err := w.open(c); err != nil {
 		return pbt.Violf("open-failed", "NewSnapshotter on an empty root: %v", err)
 	}
@@ -262,6 +310,62 @@ func run(c Case, ev *pbt.Ev) error {
 			w.sn.Close()
 		}
 	}()
+	afterCleanup := func(i int, s Step) error {
+		after, _ := w.walk()
+		ents, _ := os.ReadDir(filepath.Join(root, "snapshots"))
+		var dirs []string
+		for _, e := range ents {
+			dirs = append(dirs, e.Name())
+			if strings.HasPrefix(e.Name(), "new-") {
+				return pbt.Violf("cleanup-leftover", "step %d: after Cleanup the temporary directory %s is still there", i, e.Name())
+			}
+		}
+		if len(dirs) != len(after) && !s.UnmountFail {
+			return pbt.Violf("cleanup-dirs", "step %d: after Cleanup there are %d snapshot directories %v for %d live snapshots", i, len(dirs), dirs, len(after))
+		}
+		for n := range after {
+			if id := w.ids[n]; id != "" {
+				if _, err := os.Stat(filepath.Join(root, "snapshots", id)); err != nil {
+					return pbt.Violf("cleanup-removed-live", "step %d: after Cleanup the directory %s of live snapshot %q is gone", i, id, n)
+				}
+			}
+		}
+		return nil
+	}
+	// overlap: options are applied while the snapshot is being created (inside the metadata transaction, after its
+	// directory was made); the option starts another caller's Cleanup and gives it 40 ms to do whatever it can do
+	// at that moment.  The harness owns this schedule point; the calls themselves are the public API.
+	var cleanupDone chan error
+	overlapOpt := func(info *snapshots.Info) error {
+		if cl, ok := w.sn.(snapshots.Cleaner); ok && cleanupDone == nil {
+			ch := make(chan error, 1)
+			cleanupDone = ch
+			go func() { ch <- cl.Cleanup(context.Background()) }()
+			select {
+			case err := <-ch:
+				ch <- err
+			case <-time.After(40 * time.Millisecond):
+			}
+		}
+		return nil
+	}
+	joinCleanup := func(i int, s Step, what string) error {
+		if cleanupDone == nil {
+			return nil
+		}
+		ch := cleanupDone
+		cleanupDone = nil
+		select {
+		case err := <-ch:
+			if err != nil && !errdefs.IsNotFound(err) {
+				return pbt.Violf("cleanup-failed", "step %d: Cleanup racing with %s: %v", i, what, err)
+			}
+		case <-time.After(20 * time.Second):
+			return pbt.Inconclusive("step %d: Cleanup racing with %s did not return", i, what)
+		}
+		ev.Class("cleanup-overlapping-create")
+		return nil
+	}
 	ctx := context.Background()
 	remotePrepared, backendFailure, removedRemote := false, false, false
 	for i, s := range c.Steps {
@@ -272,6 +376,18 @@ func run(c Case, ev *pbt.Ev) error {
 		}
 		evBefore := len(w.fs.Events())
 		liveBefore := w.fs.Live()
+		if s.Parent >= 0 {
+			depth := 0
+			for n := names[s.Parent]; n != ""; n = before[n].Parent {
+				if _, ok := before[n]; !ok {
+					break
+				}
+				depth++
+			}
+			ev.ClassIf(depth >= 5, "chain-of-5-or-more-layers")
+			ev.ClassIf(depth >= 5 && s.CheckSlow != 0 && s.CheckFail != 0, "deep-chain-slow-and-failing-checks")
+		}
+		ev.ClassIf(s.CheckSlow != 0, "slow-checks")
 		key := names[s.Key]
 		parent := ""
 		if s.Parent >= 0 {
@@ -286,7 +402,13 @@ func run(c Case, ev *pbt.Ev) error {
 				target = names[s.Target]
 				opts = append(opts, snapshots.WithLabels(map[string]string{targetLabel: target}))
 			}
+			if s.Overlap {
+				opts = append(opts, overlapOpt)
+			}
 			ms, perr := w.sn.Prepare(ctx, key, parent, opts...)
+			if err := joinCleanup(i, s, "Prepare"); err != nil {
+				return err
+			}
 			evs := w.fs.Events()[evBefore:]
 			var mountOK *recfs.Event
 			for k := range evs {
@@ -351,9 +473,25 @@ func run(c Case, ev *pbt.Ev) error {
 				}
 			} else if errdefs.IsUnavailable(perr) {
 				ev.Class("unavailable")
+			} else if perr != nil && !errdefs.IsAlreadyExists(perr) && !errdefs.IsNotFound(perr) && !errdefs.IsInvalidArgument(perr) && !errdefs.IsFailedPrecondition(perr) {
+				if _, keyExisted := before[key]; !keyExisted {
+					return pbt.Violf("prepare-failed", "step %d: Prepare(%q, parent %q, target %q) failed with an error that none of its inputs explains: %v", i, key, parent, target, perr)
+				}
+			}
+			if s.Overlap {
+				if err := afterCleanup(i, s); err != nil {
+					return err
+				}
 			}
 		case "view":
-			ms, verr := w.sn.View(ctx, key, parent)
+			var vopts []snapshots.Opt
+			if s.Overlap {
+				vopts = append(vopts, overlapOpt)
+			}
+			ms, verr := w.sn.View(ctx, key, parent, vopts...)
+			if err := joinCleanup(i, s, "View"); err != nil {
+				return err
+			}
 			after, _ := w.walk()
 			if verr == nil {
 				delete(w.ids, key) // a view does not reveal its own directory
@@ -397,24 +535,8 @@ func run(c Case, ev *pbt.Ev) error {
 				if err := cl.Cleanup(ctx); err != nil && !errdefs.IsNotFound(err) {
 					return pbt.Violf("cleanup-failed", "step %d: Cleanup: %v", i, err)
 				}
-				after, _ := w.walk()
-				ents, _ := os.ReadDir(filepath.Join(root, "snapshots"))
-				var dirs []string
-				for _, e := range ents {
-					dirs = append(dirs, e.Name())
-					if strings.HasPrefix(e.Name(), "new-") {
-						return pbt.Violf("cleanup-leftover", "step %d: after Cleanup the temporary directory %s is still there", i, e.Name())
-					}
-				}
-				if len(dirs) != len(after) && !s.UnmountFail {
-					return pbt.Violf("cleanup-dirs", "step %d: after Cleanup there are %d snapshot directories %v for %d live snapshots", i, len(dirs), dirs, len(after))
-				}
-				for n := range after {
-					if id := w.ids[n]; id != "" {
-						if _, err := os.Stat(filepath.Join(root, "snapshots", id)); err != nil {
-							return pbt.Violf("cleanup-removed-live", "step %d: after Cleanup the directory %s of live snapshot %q is gone", i, id, n)
-						}
-					}
+				if err := afterCleanup(i, s); err != nil {
+					return err
 				}
 				ev.Class("cleanup")
 			}
